@@ -89,6 +89,35 @@ pub fn check_c03(case: &Case, class: &str, ctx: &mut Ctx) {
         ctx.note("de-duplication failed (C04/C10)", 1);
         return;
     };
+    // "the utility never leaves two differently shaped types under one path": decided on the source
+    // (same generalised definition <=> same shape), independently of whether generation then fails
+    if let (RegSrc::Prog(prog), false) = (&case.reg, class.starts_with("coincident")) {
+        let el = elaborate(prog);
+        let want = expected_dedup(prog, &el);
+        // two entries that the reference puts under different names must not share a path afterwards
+        let mut by_path: BTreeMap<Vec<String>, Vec<u32>> = BTreeMap::new();
+        for t in &after.types {
+            if t.ty.path.segments.len() >= 2 {
+                by_path.entry(t.ty.path.segments.clone()).or_default().push(t.id);
+            }
+        }
+        for (p, ids) in by_path {
+            let names: std::collections::BTreeSet<&Vec<String>> = ids.iter().map(|i| &want.types[*i as usize].ty.path.segments).collect();
+            if names.len() > 1 {
+                ctx.violation(
+                    format!("C03/dedup-leaves-different-shapes/{class}"),
+                    format!(
+                        "after ensure_unique_type_paths the entries {ids:?} still share the path {} although they are different definitions (reference names {:?})",
+                        p.join("::"),
+                        names.iter().map(|n| n.join("::")).collect::<Vec<_>>()
+                    ),
+                    replay(),
+                    size,
+                );
+                break;
+            }
+        }
+    }
     match faithfulness(&after, sp, None) {
         Faith::GenErr(e) => {
             ctx.exec(1);
